@@ -334,7 +334,13 @@ func GeneratedChains() {
 		s.HasElse, s.Else = true, []*gen.Stmt{g.Text()}
 	}
 	prog := []*gen.Stmt{gen.Text("<"), s, gen.Text(">")}
-	switch vrt.Choice(3) {
+	switch vrt.Choice(4) {
+	case 3:
+		// a user function whose body fails, called as the first condition; later arms test the parameter's name
+		bad := gen.Fn("f", []string{"p"}, []*gen.Stmt{gen.Return(gen.Add(gen.Var("p"), gen.Var("u")))})
+		s.Elifs = append([]gen.Elif{{Cond: gen.Var("p"), Body: []*gen.Stmt{g.Text()}}}, s.Elifs...)
+		outer := gen.IfElse(true, gen.Call("f", gen.Lit(1)), []*gen.Stmt{g.Text()}, []*gen.Stmt{s})
+		prog = []*gen.Stmt{bad, gen.Text("<"), outer, gen.Text(">")}
 	case 1:
 		// the chain inside a loop body
 		prog = []*gen.Stmt{gen.For("", "x", gen.Var("xs"), []*gen.Stmt{s, gen.Text(",")})}
